@@ -396,6 +396,8 @@ pub fn run(tier: &str) -> i32 {
             (Network::Mainnet, 2, 4, vec![1, 2], all.clone(), 2, vec![0, 1], 1),
             (Network::Testnet, 1, 4, vec![1], all.clone(), 2, vec![0, 1], 1),
             (Network::Regtest, 2, 5, vec![1, 2], vec![BODY_CB], 0, vec![0, 1], 1),
+            (Network::Regtest, 2, 4, vec![1], vec![BODY_CB], 0, vec![0], 1),
+            (Network::Regtest, 1, 4, vec![1], vec![BODY_CB], 0, vec![0], 0),
             (Network::Regtest, 1, 5, vec![1], vec![BODY_CB, BODY_SPEND_PARENT], 1, vec![0], 1),
         ]
     };
@@ -411,6 +413,13 @@ pub fn run(tier: &str) -> i32 {
             alpha.hdr_lens = vec![1, 3];
             alpha.max_hdr_events = 1;
         }
+        // competing announced headers (two announcements with a block in between give two
+        // different headers at one height) whose blocks then arrive in any order
+        if net == Network::Regtest && bodies.len() == 1 && n <= 4 {
+            alpha.hdr_lens = vec![1, 2];
+            alpha.max_hdr_events = 2;
+            alpha.announced_blocks = true;
+        }
         let m = ChainModel {
             cfg: WorldCfg::on(net, theta),
             alpha,
@@ -424,7 +433,7 @@ pub fn run(tier: &str) -> i32 {
                    "bodies": bodies, "max_non_default_bodies": sp, "ingestion_budgets": budgets, "max_upgrades": ups}),
         );
     }
-    rep.rule = "LEDGER/TREE histories (forks discarded at different depths, transactions shared between forks, outputs spent across forks) with upgrades and sliced ingestion; in every state the serialised unstable-block bookkeeping (tree, tx-out cache with reference counts, per-block address deltas, cached tip depths, announced headers) and the block cache in stable memory are compared with what the blocks currently below the anchor require, recomputed from the block bodies; all queries and the fee computation must find every entry they need".into();
+    rep.rule = "LEDGER/TREE histories (forks discarded at different depths, transactions shared between forks, outputs spent across forks) with upgrades and sliced ingestion, and competing announced headers whose blocks arrive in any order; in every state the serialised unstable-block bookkeeping (tree, tx-out cache with reference counts, per-block address deltas, cached tip depths, announced headers) and the block cache in stable memory are compared with what the blocks currently below the anchor require, recomputed from the block bodies; all queries and the fee computation must find every entry they need".into();
     rep.bounds = json!({"tier": tier});
     rep.assume("announced headers: one header event (chains of 1 and 3) per history here; C14 explores them more densely with the same structural checks");
     rep.floor("bookkeeping_states_checked", 5000);
